@@ -48,6 +48,7 @@ type FnResult struct {
 	ExcPaths int
 	Secs     float64
 	TimeBy   map[string]float64
+	Cross    [3]int // cross-check: agree, disagree, undecided
 	Checks   int
 	Inlined  []string
 	UsedExt  []string
@@ -122,6 +123,7 @@ func verifyFunction(P *Program, db *ContractDB, fn *ssa.Function, c *Contract, v
 		res.Paths, res.RetPaths, res.ExcPaths = e.paths, e.retPaths, e.excPaths
 		res.Secs = time.Since(t0).Seconds()
 		res.TimeBy = sol.TimeBy
+		res.Cross = [3]int{sol.CrossAgree, sol.CrossDisagree, sol.CrossUndecided}
 		res.Checks = sol.Checks
 		for k := range e.inlined {
 			res.Inlined = append(res.Inlined, k)
